@@ -2,7 +2,7 @@
    (Data-race freedom in the sense of the Go memory model is below the grain of the machine: see DESIGN.md.) *)
 From stdpp Require Import gmap.
 From Ristretto Require Import Base.Word Cache.Policy Cache.PolicyProofs Cache.Store Cache.Machine Cache.MachineProofs
-  Cache.SyncProofs Cache.ProtoProofs.
+  Cache.SyncProofs Cache.ProtoProofs Cache.ProgressProofs.
 Local Open Scope Z_scope.
 
 (* For every number of goroutines and every schedule of the listed calls (everything but Close): no send on /
@@ -43,6 +43,28 @@ Proof.
   intros c maxCost bdur now0 mon sched tid t id HL s.
   destruct (reachable_proto c maxCost bdur now0 mon sched HL) as [_ Hp]. apply (pi_wait _ Hp).
 Qed.
+
+(* "Every call returns in bounded time", at the grain of the machine.  [phi s] is an explicit potential: a weight for
+   every goroutine's remaining program (its program counter and pending callbacks), for every buffered item (what
+   the applier or Clear's drain still has to do with it), for the applier's current item / sweep, plus 18 per accounted
+   key (pays for the victims of later evictions: one Add evicts at most 6 per key it removes, pol_add_bound) and 2 per
+   map entry (pays for Clear's callbacks).  Every step of a client goroutine or of the applier strictly decreases it —
+   in every state, reachable or not. *)
+Theorem C08_progress_decreases : forall c s l s', progress_label l -> mstep c s l = Some s' -> (phi s' < phi s)%nat.
+Proof. exact progress_decreases. Qed.
+
+(* So without new calls and ticker events at most [phi s] steps can be taken at all ... *)
+Theorem C08_bounded_progress : forall c sched s, Forall progress_label sched -> (executed c s sched <= phi s)%nat.
+Proof. exact bounded_progress. Qed.
+
+(* ... and (no deadlock) when nothing can step any more, every call has returned, the write buffer is empty and the
+   applier is idle: every call issued on an open cache returns within [phi] steps of the system. *)
+Theorem C08_rest_means_done : forall c maxCost bdur now0 mon sched0 sched,
+  (1 <= c_cap c)%nat -> Forall label_noclose sched0 -> Forall progress_label sched ->
+  let s := mrun c (mrun c (init_state maxCost bdur now0 mon) sched0) sched in
+  (forall l, progress_label l -> mstep c s l = None) ->
+  ~ busy s /\ s_buf s = [] /\ s_apend s = [] /\ (s_apc s = AIdle \/ s_apc s = AExited).
+Proof. exact rest_means_done. Qed.
 
 (* non-vacuity: a reachable state with a goroutine blocked in Wait behind a gated item *)
 Example C08_blocked_wait_reachable :
